@@ -149,3 +149,38 @@ func vc_C20_supertriangle_contains() {
 		vfAssert(vfOr(vfAnd(vfAnd(o > 0, o0 > 0), vfAnd(o1 > 0, o2 > 0)), vfAnd(vfAnd(o < 0, o0 < 0), vfAnd(o1 < 0, o2 < 0))), "every input point lies strictly inside the super triangle")
 	}
 }
+
+// Delaunay2dSlow (the reference triangulation): three fixed points of a cluster
+// of width 1e-4, 1 or 1e3 and one arbitrary fourth point near them. No
+// input point lies strictly inside the circumcircle of a returned triangle
+// (in-circle determinant, exact in the reals; the margins are relative to the
+// cluster's scale, so that a counterexample survives rounding).
+func vc_C20_slow_cluster() {
+	vfTimeouts(3000, 20000)
+	u := []float64{1e-4, 1, 1e3}[vfCase("scale", 3)] // the cluster's width: the triangulation must not depend on the scale
+	px, py := vfReal("p.x"), vfReal("p.y")
+	vfAssume(vfAnd(px >= -3*u, px <= 7*u))
+	vfAssume(vfAnd(py >= -3*u, py <= 6*u))
+	fixed := []v2.Vec{{X: 0, Y: 0}, {X: 4 * u, Y: 0.5 * u}, {X: 1 * u, Y: 3 * u}}
+	vs := v2.VecSet{fixed[0], fixed[1], fixed[2], {X: px, Y: py}}
+	ts, err := Delaunay2dSlow(vs)
+	vfAssume(err == nil)
+	vfReach("slow cluster")
+	for _, t := range ts {
+		a, b, c := vs[t[0]], vs[t[1]], vs[t[2]]
+		orient := (b.X-a.X)*(c.Y-a.Y) - (b.Y-a.Y)*(c.X-a.X)
+		for k := 0; k < 4; k++ {
+			if k == t[0] || k == t[1] || k == t[2] {
+				continue
+			}
+			d := vs[k]
+			ax, ay := a.X-d.X, a.Y-d.Y
+			bx, by := b.X-d.X, b.Y-d.Y
+			cx, cy := c.X-d.X, c.Y-d.Y
+			det := (ax*ax+ay*ay)*(bx*cy-cx*by) - (bx*bx+by*by)*(ax*cy-cx*ay) + (cx*cx+cy*cy)*(ax*by-bx*ay)
+			m := 1e-3 * u * u * u * u // relative margin
+			o := 1e-3 * u * u
+			vfAssert(vfNot(vfOr(vfAnd(det > m, orient > o), vfAnd(det < -m, orient < -o))), "no input point lies strictly inside the circumcircle of a triangle of the reference triangulation (three fixed points and one arbitrary point, three scales)")
+		}
+	}
+}
